@@ -189,12 +189,31 @@ ADD10 = {
  "C17": " What each limiter is asked for is summed over all WaitN calls of a read, for reads of 1024, 2048 and 4096 bytes.",
 }
 
+ADD11 = {
+ "C01": " A UDP client's datagrams are handed to its queue by the loop itself in arrival order (one blocking send, not goroutines racing for the queue).",
+ "C02": " Leaving matching mode puts the cursor back where matching began; one prefetch is one read.",
+ "C03": " Every matcher of a set is rewound before the next one freezes the cursor; the throttle's read discipline in front of the relay.",
+ "C05": " Every blocking wait for a datagram in the UDP association's Read also watches the deadline timer and the closed channel.",
+ "C06": " On all 49 proper prefixes of a ClientHello spread over two records the tls matcher answers need-more and parses nothing.",
+ "C07": " The hello parser is given the message and nothing else (cut at the announced length); alpn ids given as placeholders are compared as resolved.",
+ "C08": " What a byte-slice pool's New returns is allocated in that call or capacity-limited; the association table belongs to one socket's loop.",
+ "C09": " The closed channel is closed in Close only and nothing in the package calls Close on an association; the loop releases a datagram itself only where it has no source address; every wait for a datagram watches deadline and close. KNOWN FINDING (C09.R23, recorded, not repaired): a datagram arriving after its association has ended, before the loop has processed the notice, is dropped instead of starting a fresh association.",
+ "C10": " round_robin's position is a field of the policy instance; the failure counter moves by +1/-1 only.",
+ "C11": " The active checker's start depends on no other presence test than health_checks and active; Cleanup, evaluated on handlers provisioned 2+1, 2+0, 1+0 and 0+0 addresses far, releases exactly the table entries provisioning stored.",
+ "C12": " Every placeholder WrapConnection derives from the connection's addresses is set again from the new connection before it is handed on; all allow lines of a Caddyfile block add up; prefetch keeps its bytes in storage of its own. KNOWN FINDING (C12.R17, recorded, not repaired): after a v1 'PROXY UNKNOWN' header the library's wrapper reports ':0' and the handler hands it on without looking at the header.",
+ "C13": " A handler that hands on a new connection builds it on the connection it was given; nothing a matcher does writes into the matching buffer.",
+ "C14": " The address tested against the ranges has had its IPv6 zone removed; the dns rules are given the question name lower-cased and are consulted only about questions whose class and type lookups both succeeded; winbox user names of one, two and three characters.",
+ "C15": " A field's map written by a parser is made or found non-nil on every path to the write. KNOWN FINDING (C15.R20, recorded, not repaired): the documented `cert_selection { public_key_algorithm rsa }` adapts to JSON that does not load (caddytls.PublicKeyAlgorithm reads names, is written as a number).",
+ "C17": " Every value stored into the handler-wide limiter is rate.NewLimiter on the handler's own total rate and total burst.",
+ "C18": " The openvpn verdict tables also under this property (a parser rejects a wrong length whatever state the message object is in).",
+}
+
 checks = []
 for p in props:
     if p["id"] not in CLAIMS:
         continue
     tech, text, ref = CLAIMS[p["id"]]
-    text = text + ADD6.get(p["id"], "") + ADD7.get(p["id"], "") + ADD8.get(p["id"], "") + ADD9.get(p["id"], "") + ADD10.get(p["id"], "")
+    text = text + ADD6.get(p["id"], "") + ADD7.get(p["id"], "") + ADD8.get(p["id"], "") + ADD9.get(p["id"], "") + ADD10.get(p["id"], "") + ADD11.get(p["id"], "")
     checks.append({
         "property_id": p["id"],
         "quick_cmd": "./run.sh %s quick" % p["id"],
